@@ -20,7 +20,8 @@ EXPLANATION = ("Determinism as a functional property. Proved: Project.reuse_info
                "spdx` in child processes over hash seeds, worker counts, directory-listing orders, working directories and root "
                "spellings; all normalised outputs of one tree must agree.")
 
-FUNCTIONS = ["reuse.project.Project.reuse_info_of", "reuse.report._MultiprocessingContainer.__call__",
+FUNCTIONS = ["reuse.project.Project.reuse_info_of", "reuse.global_licensing.NestedReuseTOML.reuse_info_of",
+             "reuse.report._MultiprocessingContainer.__call__",
              "reuse.report.FileReport.generate", "reuse.report.ProjectReport.generate"]
 
 H = "# SPDX-FileCopyrightText: 2020 Jane\n# SPDX-License-Identifier: MIT\n"
@@ -31,7 +32,10 @@ TREES = {
         "git": True,
         "files": {
             "REUSE.toml": 'version = 1\n[[annotations]]\npath = "**/*.dat"\nSPDX-FileCopyrightText = "2021 Data Corp"\nSPDX-License-Identifier = "CC0-1.0"\n'
-                          '[[annotations]]\npath = "pkg/**"\nprecedence = "aggregate"\nSPDX-FileCopyrightText = "Pkg Authors"\nSPDX-License-Identifier = "MIT"\n',
+                          '[[annotations]]\npath = "pkg/**"\nprecedence = "aggregate"\nSPDX-FileCopyrightText = "Pkg Authors"\nSPDX-License-Identifier = "MIT"\n'
+                          '[[annotations]]\npath = "pk2/**"\nSPDX-FileCopyrightText = "Outer Both"\nSPDX-License-Identifier = "0BSD"\n',
+            "pk2/REUSE.toml": 'version = 1\n[[annotations]]\npath = "a_first.txt"\nSPDX-FileCopyrightText = "Inner Copyright Only"\n',
+            "pk2/a_first.txt": "one\n", "pk2/b_second.txt": "two\n", "pk2/z/later.txt": "three\n",
             "pkg/REUSE.toml": 'version = 1\n[[annotations]]\npath = "inner/**"\nprecedence = "override"\nSPDX-FileCopyrightText = "Inner"\nSPDX-License-Identifier = "0BSD"\n',
             "a_first.dat": "SPDX-FileCopyrightText: Only Copyright\n", "b_second.dat": "1 2 3\n", "z/later.dat": "4 5 6\n", "z/z/latest.dat": "SPDX-License-Identifier: MIT\n",
             "pkg/m.py": H, "pkg/n.py": "print(1)\n", "pkg/inner/o.py": H, "pkg/inner/deep/p.txt": "text\n", "top.py": H, "nothing.txt": "no info\n",
